@@ -1166,6 +1166,9 @@ func init() {
 		} else if tier == "search" {
 			nDerive, nModes, nFirst = 3000, 1500, 3000
 		}
+		if !listed("F14d-C14-concurrent-first-session") && tier != "thorough" {
+			nFirst *= 2 // claimed repaired: a timing-dependent witness gets twice the bursts before the run accepts that claim
+		}
 		c14mDeriveSuite(r, rng, nDerive)
 		c14mModesSuite(r, rng, nModes)
 		c14mFirstSessionProbe(r, nFirst)
